@@ -50,6 +50,10 @@ func main() {
 			fmt.Fprintf(&b, "\t%q: func() any { return new(vc.%s_PartialUpdate) },\n", n, utils.ExportedIdentifier(n))
 		}
 	}
+	b.WriteString("}\n\nvar NewComplexKey = map[string]func() any{\n")
+	if _, err := os.Stat(filepath.Join(outDir, env.Namespace, codec.C02ComplexKey+utils.GeneratedFileSuffix)); err == nil {
+		fmt.Fprintf(&b, "\t%q: func() any { return new(vc.%s) },\n", codec.C02ComplexKey, codec.C02ComplexKey)
+	}
 	b.WriteString("}\n\nvar BatchEnc = map[string]func(keys []int64, vals []any, w any) error{\n")
 	for _, n := range names {
 		if env.Find(n).Kind == "record" {
